@@ -6,6 +6,7 @@ import codec_common as CC
 import gen_asn1 as G
 import lib
 import xcodec as X
+import boundary
 
 
 def rerun_findings(ctx):
@@ -60,6 +61,7 @@ def run(ctx):
             ctx.count('pt:%s:%s' % (codec, 'ok' if enc is not None else 'violation'))
         if codec in mods:
             CC.corr_encode_decode(ctx, mods[codec], cases[:len(cases) // 2 if ctx.quick else len(cases)])
+    boundary.run(ctx, X.BINARY, mods, lengths=None if not ctx.quick else 'quick')
     if not ctx.quick:
         big = X.union_opts(X.BINARY, mods, big=True, max_depth=1, n_types=2)
         for c in CC.gen_cases(ctx, big, 60, 2):
